@@ -10,6 +10,7 @@ def _sharded_catalogue(runner, stage):
     a shard enumerates the choice sequences whose first branching choice (number of files x main import kind x shape of f1) is its own.
     `exhaustive_complete` is reported only when every shard enumerated its part completely."""
     shards = stage.get("shards", 16)
+    t_start = time.time()
     hdir = runner.build("asan", ["C07"])
     exe = os.path.join(hdir, "C07")
     procs = []
@@ -88,20 +89,20 @@ def _sharded_catalogue(runner, stage):
                 pass
         runner.notes.append("bounded catalogue: only %d of %d shards enumerated their part completely (a violation stops a shard)" % (complete, shards))
     else:
-        runner.notes.append("bounded catalogue (at most %d library files, %s): all %d shards complete, %d choice sequences" % (
-            stage["maxn"], "fault-first scenarios" if stage["order_mode"] == 1 else "both scenario orders", shards, evaluations))
+        runner.notes.append("bounded catalogue (at most %d library files, %s): all %d shards complete, %d choice sequences, %.0f s wall" % (
+            stage["maxn"], "fault-first scenarios" if stage["order_mode"] == 1 else "both scenario orders", shards, evaluations, time.time() - t_start))
 
 
 PLAN = {
     "level": "fault_enumeration",
     "quick": [
         replays("C07"),
-        custom("C07:catalogue-ex", _sharded_catalogue, maxn=3, order_mode=1, shards=16),
-        tape("C07", 12000, size=300, case_timeout=900),
+        custom("C07:catalogue-ex(<=2 library files)", _sharded_catalogue, maxn=2, order_mode=0, shards=8),
+        tape("C07", 8000, size=300, case_timeout=900),
     ],
     "thorough": [
         replays("C07"),
-        custom("C07:catalogue-ex", _sharded_catalogue, maxn=3, order_mode=0, shards=16),
+        custom("C07:catalogue-ex(<=3 library files)", _sharded_catalogue, maxn=3, order_mode=0, shards=16),
         tape("C07", 300000, size=400, case_timeout=900),
     ],
     "class_floors": {
@@ -122,7 +123,8 @@ CLAIM = {
             "resolveImports / hasUnresolvedImports / flattenModel are driven with the fault, after the repair on the same importer (removeAllModels()) and on a new importer, optionally after a healthy first round. Every call runs in a forked child with a 20 s limit "
             "(a time-out is re-run with 300 s before it is reported as a hang; crashes are attributed to the call that was running). A reference search over the data says for every import element of f0 whether it can be satisfied; compared with it: the return value of "
             "resolveImports (true exactly when satisfiable), hasUnresolvedImports() after true, flattenModel non-null after true / null with an issue after false, at least one issue whose item is each failing import element of f0 and none on a satisfiable one, and the Logger invariants after every call. "
-            "The bounded tier enumerates EVERY scenario of a catalogue of chains with at most 3 library files (13 000 scenarios fault-first, 26 000 with both orders: 4 main import kinds x 5 unit / 7 component shapes per file x every applicable fault x file and library route); "
+            "The bounded tier enumerates EVERY scenario of a catalogue of chains (4 main import kinds x 5 unit / 7 component shapes per file x every applicable fault x file and library route x both scenario orders): "
+            "quick: at most 2 library files (about 2 000 scenarios, exhaustive: true refers to this bound); thorough: at most 3 library files (about 26 000 scenarios); "
             "the random tier adds chains of up to 8 files and layered random graphs of up to 9 files with diamonds, repeated imports, unused broken imports, sub-directories, CellML 1.1 files under a permissive importer and unrelated parser errors in imported files.",
     "note": "Trusts the harness's reference model and XML writer. A dangling local reference (unit child / variable units naming units that do not exist) is not judged. Graphs whose files import each other without an entity-level cycle are never generated (excluded by the statement). "
             "Known defects are probed once per process; while present their triggers are kept out of the routine scenarios by construction (counted as excluded:*) and let through in a sample (matched by known.d/C07.json); a known hang is never sampled (replays/C07/slow-*.tape, run by hand). "
